@@ -155,8 +155,11 @@ def run(P, R):
         rs = None
     cv = comp_view(gp, rs[0]) if rs and len(rs) == 1 else None
     ok = rs is None or cv is not None and cv['kind'] == 'list' and cv['iters'] == ['self.identifiers'] and \
-        cv['elt'] == 'each(self.identifiers)' and cv['conds'] == {
-            ('each(self.identifiers) in process.info_map', True), ('process.disabled_on(each(self.identifiers))', False)}
+        cv['elt'] == 'each(self.identifiers)' and cv['conds'] in (
+            {('each(self.identifiers) in process.info_map', True), ('process.disabled_on(each(self.identifiers))', False)},
+            # disabled_on() written out (its own membership test is the one already made)
+            {('each(self.identifiers) in process.info_map', True),
+             ("process.info_map[each(self.identifiers)]['disabled']", False)})
     R.check(r2, ok, 'the per-process filter keeps the instances that know the program and have it enabled',
             'candidates|get_process_identifiers', gp.loc(), 'get_process_identifiers is not `[i for i in '
             'self.identifiers if i in process.info_map and not process.disabled_on(i)]`')
@@ -344,17 +347,16 @@ def run(P, R):
     fm = factmap(ac)
     app = [c for c in own_nodes(ac.node) if isinstance(c, ast.Call) and isinstance(c.func, ast.Attribute)
            and c.func.attr == 'append']
-    ok = len(app) == 1 and {tuple(f) for f in fm.at(app[0])} == {('current_job', False), ('planned_job', False)}
-    R.check(r6, ok, 'append only when not already current or planned', 'dedup|add_commands', ac.loc(),
-            'add_commands appends under %s' % [sorted(tuple(f) for f in fm.at(a)) for a in app])
-    adefs = {a.targets[0].id: a.value for a in own_nodes(ac.node) if isinstance(a, ast.Assign)
-             and isinstance(a.targets[0], ast.Name)}
+    CMD = 'each(each(jobs.items())[1])'        # the command of the loops over the (sequence, commands) given
+    got = fm.closed(app[0]) if len(app) == 1 else set()
+    want = {('%s(%s.process.process_name, %s.identifier)' % (fn, CMD, CMD), False)
+            for fn in ('self.get_current_command', 'self.get_planned_command')}
+    R.check(r6, got == want, 'append only when not already current or planned', 'dedup|add_commands', ac.loc(),
+            'add_commands appends under %s' % sorted(got))
     for nm, fn in (('current_job', 'self.get_current_command'), ('planned_job', 'self.get_planned_command')):
-        v = adefs.get(nm)
-        ok = isinstance(v, ast.Call) and call_text(v) == fn and [ast.unparse(a) for a in v.args] == \
-            ['command.process.process_name', 'command.identifier']
+        ok = ('%s(%s.process.process_name, %s.identifier)' % (fn, CMD, CMD), False) in got
         R.check(r6, ok, '%s is searched by process name and identifier' % nm, 'dedup|%s' % nm, ac.loc(),
-                'add_commands looks up %s with %s' % (nm, ast.unparse(v) if v is not None else '?'))
+                'add_commands does not look up %s with (process name, identifier): %s' % (nm, sorted(got)))
     gc = P.unit('ApplicationJobs.get_command')
     want = ctext('(not identifier or identifier == command.identifier) and command.process.process_name == process_name')
     ok = any(ctext(x) == want for x in ast.walk(gc.node) if isinstance(x, ast.BoolOp))
